@@ -47,7 +47,7 @@ def run(bid, ws, props):
             return res
         if not props:
             m = json.load(open(os.path.join(ROOT, "MANIFEST.json")))
-            props = sorted(c["property"] if "property" in c else c["id"] for c in m["checks"])
+            props = sorted(c["property_id"] for c in m["checks"])
         for p in props:
             t0 = time.time()
             rc, out = sh("./check %s quick" % p, cwd=ws, env=dict(ENV, VERIF_REPO=wt), timeout=3600)
